@@ -27,7 +27,7 @@ theorem buffer_sizes :
 /-- every length guard the model relies on is present in the source (regenerated: function, source text of the
     comparison, number of occurrences).  A guard that is removed, or whose operator / operand changes, breaks this
     obligation. -/
-theorem buffer_guards_present : lengthGuards.all (fun g => decide (g.2.2 ≥ 1)) = true ∧ lengthGuards.length = 14 := by
+theorem buffer_guards_present : lengthGuards.all (fun g => decide (g.2.2 ≥ 1)) = true ∧ lengthGuards.length = 20 := by
   decide
 
 /-! ### get_dir -/
@@ -279,6 +279,12 @@ theorem segOk_fs_safe (f : String) : ∀ (evs : List Ev) (apps : List Approval),
     | note n =>
       simp only [List.mem_cons, reduceCtorEq, false_or] at hm
       exact ih _ hs fn w p hm
+    | nest g w' a' inner =>
+      simp only [List.mem_cons, reduceCtorEq, false_or] at hm
+      exact ih _ hs.2 fn w p hm
+    | edsave st' name =>
+      simp only [List.mem_cons, reduceCtorEq, false_or] at hm
+      exact ih _ hs.2 fn w p hm
     | lp _ _ => exact absurd hs (by simp [segOk])
     | il _ _ => exact absurd hs (by simp [segOk])
     | cvp _ _ _ => exact absurd hs (by simp [segOk])
